@@ -50,13 +50,16 @@ SPEC = [
         # first statement outside the supported subset, and the rest is checked not to assign them
         "fields": ["threshold", "branching_factor", "_merge_accept_fn"],
         "partial_init": True}),
+    ("bblean/cli.py", {"functions": ["_validate_output_dir"]}),
 ]
 # a parameter annotated with this class is a merge-function object (class name :: attributes); calling it dispatches on the
 # class name to the translated `__call__` of that class (generated function `<base>_call`)
 DISPATCH_BASE = "MergeAcceptFunction"
 
 # calls that are effects of a procedure: recorded, in order, in the returned list
-EFFECTS = {"_madvise_dontneed"}
+EFFECTS = {"_madvise_dontneed", "shutil.rmtree"}
+# methods of an opaque parameter whose call is an effect (recorded as "<param>.<method>")
+EFFECT_METHODS = {"mkdir"}
 # statements that are dropped (diagnostics only)
 DROPPED_CALLS = {"warnings.warn"}
 # module-level constants that become parameters
@@ -315,6 +318,17 @@ class Translator:
                 cx["symbols"].add(s)
                 return s
             raise Unsupported(f"isinstance {src_of(e)} (line {e.lineno})")
+        if isinstance(f, ast.Attribute) and isinstance(f.value, ast.Name) and f.value.id in cx["opaque"] \
+                and not e.args and not e.keywords and f.attr not in EFFECT_METHODS:
+            sname = ident(f"{f.value.id}.{f.attr}")          # e.g. out_dir.exists() -> out_dir_exists
+            cx["symbols"].add(sname)
+            return sname
+        if isinstance(f, ast.Name) and f.id == "any" and len(e.args) == 1 and isinstance(e.args[0], ast.Call) \
+                and isinstance(e.args[0].func, ast.Attribute) and isinstance(e.args[0].func.value, ast.Name) \
+                and e.args[0].func.value.id in cx["opaque"] and not e.args[0].args:
+            sname = ident(f"any.{e.args[0].func.value.id}.{e.args[0].func.attr}")
+            cx["symbols"].add(sname)
+            return sname
         if t == "np.exp" and len(e.args) == 1 and not e.keywords:
             return f"(PV.exp expf {self.expr(e.args[0], cx)})"
         if t == "np.sum" and len(e.args) == 1 and not e.keywords:
@@ -404,10 +418,16 @@ class Translator:
             t = flat(s.value.func)
             if t in DROPPED_CALLS:
                 return self.stmts(rest, cx, kind, end, ind)
+            fm = s.value.func
+            if isinstance(fm, ast.Attribute) and isinstance(fm.value, ast.Name) and fm.value.id in cx["opaque"] \
+                    and fm.attr in EFFECT_METHODS and not s.value.args and not s.value.keywords:
+                cx2 = dict(cx, locals=cx["locals"] | {"eff_"})
+                return pad + f'let eff_ := eff_ ++ [PV.str "{fm.value.id}.{fm.attr}"]\n' + self.stmts(rest, cx2, kind, end, ind)
             if t in EFFECTS:
                 if kind != "L":
                     raise Unsupported(f"effect {t} in a value function (line {s.lineno})")
-                args = ", ".join([f'PV.str "{t}"'] + [self.expr(a, cx) for a in s.value.args])
+                args = ", ".join([f'PV.str "{t}"'] + [(f'PV.str "{a.id}"' if isinstance(a, ast.Name) and a.id in cx["opaque"]
+                                                     else self.expr(a, cx)) for a in s.value.args])
                 cx2 = dict(cx, locals=cx["locals"] | {"eff_"})
                 return pad + f"let eff_ := eff_ ++ [{args}]\n" + self.stmts(rest, cx2, kind, end, ind)
             raise Unsupported(f"statement {src_of(s)} (line {s.lineno})")
@@ -583,7 +603,8 @@ class Translator:
         has_raise = any(isinstance(n, ast.Raise) for n in ast.walk(fn))
         status_first = mutating and (has_return_value or has_raise)
         is_proc = is_method and not is_init and not has_return_value and not mutating
-        kind = "L" if mutating else self.fn_kind(fn, is_init, is_proc)
+        is_fproc = (not is_method) and not has_return_value and uses_effects
+        kind = "L" if (mutating or is_fproc) else self.fn_kind(fn, is_init, is_proc)
         # opaque parameters: those whose attributes are read (other than by vocabulary methods)
         opaque = set()
         for n in ast.walk(fn):
@@ -593,6 +614,11 @@ class Translator:
             if isinstance(n, ast.Call) and isinstance(n.func, ast.Name) and n.func.id == "isinstance" \
                     and isinstance(n.args[0], ast.Name) and n.args[0].id in params and flat(n.args[1]) != DISPATCH_BASE:
                 opaque.add(n.args[0].id)
+        for n in ast.walk(fn):
+            if isinstance(n, ast.Call) and flat(n.func) in EFFECTS:
+                for a_ in n.args:
+                    if isinstance(a_, ast.Name) and a_.id in params:
+                        opaque.add(a_.id)
         opaque -= set(objparams) | listparams
         cx = {"params": set(params) - opaque - set(objparams), "selfattrs": selfattrs, "symbols": set(),
               "locals": set(), "opaque": opaque, "dataclass_fields": fields if is_classmethod else None,
@@ -615,6 +641,11 @@ class Translator:
 
             def end(c):
                 return "eff_ ++ [" + ", ".join(c["selfattrs"][x] for x in attrs) + "]"
+        elif is_fproc:
+            cx["locals"] = {"eff_"}
+
+            def end(c):
+                return "eff_"
         elif mutating:
             def end(c):
                 return "[" + ", ".join((["PV.pynone"] if status_first else []) + [c["selfattrs"][x] for x in fields]) + "]"
@@ -641,6 +672,8 @@ class Translator:
             stmts_src = stmts_src[:k]
             kind = "L"
         body = self.stmts(stmts_src, cx, kind, end, 1 + (1 if is_proc else 0))
+        if is_fproc:
+            body = "  let eff_ : List PV := []\n" + body
         if is_proc:
             body = "  let eff_ : List PV := []\n" + body.replace("\n    ", "\n  ") if False else \
                 "  let eff_ : List PV := []\n" + "\n".join(l[2:] if l.startswith("    ") else l for l in body.split("\n"))
